@@ -616,6 +616,30 @@ def check_tensor(ctx: Ctx, spec, suite="tensor", light=False, verbose=False):
                 if dst is not None:
                     dj = {"dtype": str(dst.dtype)[6:], "shape": list(dst.shape), "bytes": list(dst_before)}
                 ops.append({"op": "save_then_load", "tensor": tv, "dst": dj}); tags.append("save_then_load")
+            # 5b. the same through TILED reads (buffer size limit below the tensor) into a matching destination that is a
+            #     non-flattenable view (a column block of a wider buffer): tiles are consumed in shuffled order
+            if entry.serializer == "buffer_protocol" and n > 1 and len(shape) >= 2 and shape[-1] >= 1:
+                wide_shape = list(shape[:-1]) + [shape[-1] + 3]
+                wn = 1
+                for x_ in wide_shape:
+                    wn *= x_
+                wide = torch.frombuffer(bytearray([ctx.rng.randrange(2) if name == "bool" else ctx.rng.randrange(256) for _ in range(es * wn)]),
+                                        dtype=d).reshape(wide_shape)
+                tdst = wide[..., : shape[-1]]
+                limit = ctx.rng.choice([es, max(es, (es * n) // 3), max(es, es * n - 1)])
+                trrs, tfut = T.TensorIOPreparer.prepare_read(entry, tensor_out=tdst, buffer_size_limit_bytes=limit)
+                order_ = list(range(len(trrs)))
+                ctx.rng.shuffle(order_)
+                for i_ in order_:
+                    br = trrs[i_].byte_range
+                    E.run(trrs[i_].buffer_consumer.consume_buffer(staged if br is None else staged[br[0]:br[1]]))
+                tres = tfut.obj
+                if tres.dtype != d or list(tres.shape) != list(shape) or E.bits(tres) != expected:
+                    ctx.fail("stage-consume-roundtrip", "tiled reads into a matching non-flattenable destination did not reproduce dtype/shape/bits",
+                             dict(spec, tiled_limit=limit, tiles=len(trrs), dst="column block of a wider buffer"),
+                             {"dtype": str(tres.dtype)[6:], "shape": list(tres.shape), "got": list(E.bits(tres)[:48]), "expected": list(expected[:48])})
+                ctx.count("e2e.tiled_nonflat_dst")
+                ctx.count("e2e.tiled_nonflat_dst.tiles", len(trrs))
             ctx.count("e2e.serializer." + entry.serializer)
             ctx.count("e2e.dst." + dmode)
             ctx.count("e2e.async" if is_async else "e2e.sync")
